@@ -44,6 +44,7 @@ def spec_strategy(tier):
                 missing = [t for t in specs.TYPES if t not in types][0]
                 p["workers"][0]["resources"].append([missing, 1])
         spec["hashseeds"] = [draw(st.integers(0, 100)), draw(st.integers(101, 1000))]
+        spec["log_file_mode"] = draw(st.sampled_from(["write", "write", "append"]))  # each run has a fresh directory either way
         return spec
 
     return s()
@@ -89,6 +90,8 @@ def render(spec, d):
         f"--scheduler={pol['name']}", "--scheduler_runtime=0", f"--random_seed={spec['seed']}", f"--scheduler_frequency={fl['scheduler_frequency']}",
         f"--scheduler_delay={fl['scheduler_delay']}", f"--runtime_variance={fl['runtime_variance']}", "--log_level=info",
     ]
+    if spec.get("log_file_mode", "write") != "write":
+        args.append(f"--log_file_mode={spec['log_file_mode']}")
     if pol.get("enforce_deadlines"):
         args.append("--enforce_deadlines")
     if fl.get("drop_skipped_tasks"):
